@@ -37,6 +37,8 @@ def mk_self(cls, fields):
             v = eng.fresh(T.arr(T.float), "self." + nm, st)
             st.heap[v.addr].len = n          # all data vectors have the same length (one term: keeps sums syntactically aligned)
             f[nm] = v
+            st.ghost = dict(st.ghost)
+            st.ghost["data0." + nm] = (st.heap[v.addr].len, st.heap[v.addr].get)       # entry value of the data vector (frame condition)
         st.ghost["n"] = n
         return st.alloc(HObj(cls, f))
     return mk
@@ -50,6 +52,8 @@ def opaque_call_for(variant):
             raise PyRaise("Exception")
         if variant == "scalar":
             return pred(z3.IntVal(0))
+        if variant == "alias":
+            return args[0]            # a model like f(x) = x hands back the very array it was given (sympy.lambdify of `x` does)
         return st.alloc(HSeq(n, pred, numpy=True, etype=T("cfloat")))
     return call
 
@@ -68,6 +72,8 @@ def get_pred_contract(variant):
             return [("evaluation error gives +inf", res.is_pinf() if isinstance(res, VFloat) else z3.BoolVal(False))]
         if variant == "scalar":
             return [("returns the model value", fsame(res, pred(z3.IntVal(0))) if isinstance(res, VFloat) else z3.BoolVal(False))]
+        if variant == "alias":
+            return [("returns what the model returned (here: its own argument)", z3.BoolVal(isinstance(res, VRef) and res.addr == a["x"].addr))]
         if not isinstance(res, VRef):
             return [("returns the model values", z3.BoolVal(False))]
         return [("returns the model values", z3.And(S.len(res) == n, z3.ForAll([k], z3.Implies(z3.And(0 <= k, k < n), z3.And(
@@ -79,6 +85,8 @@ def get_pred_contract(variant):
             return VFloat(0, inf=True, pos=True)
         if variant == "scalar":
             return pred(z3.IntVal(0))
+        if variant == "alias":
+            return a["x"]
         return st.alloc(HSeq(n, pred, numpy=True, etype=T("cfloat")))
     return Contract("Likelihood.get_pred", {"self": mk_self("Likelihood", []), "x": T.arr(T.float), "a": T.arr(T.float), "eq_numpy": T.fn},
                     ensures=ensures, returns=returns, raises=lambda S, a, e: z3.BoolVal(False))
@@ -161,6 +169,16 @@ def negloglike_contract(cls, variant):
         out = []
         if not isinstance(res, VFloat):
             return [("returns a number", z3.BoolVal(False))]
+        # frame: the likelihood's data vectors are what they were (also when the model hands back one of them)
+        kf = z3.Int(fresh_name("k!fr"))
+        o_ = S.st.heap[selfv.addr]
+        for nm in fields:
+            l0, g0 = S.st.ghost["data0." + nm]
+            cur = S.seq(o_.fields[nm]) if isinstance(o_.fields[nm], VRef) else None
+            out.append(("the data vector self.%s is not modified" % nm,
+                        z3.And(cur.len == l0, z3.Implies(z3.And(0 <= kf, kf < l0), fsame(as_float(cur.get(kf)), as_float(g0(kf))))) if cur is not None else z3.BoolVal(False)))
+        if variant == "alias":
+            return out            # (the model returns the abscissa array itself: only the frame is asked for)
         out.append(("the result is never NaN", z3.Not(res.nan)))
         if variant == "raises":
             if cls in ("CCLikelihood", "MockLikelihood"):
